@@ -266,13 +266,15 @@ func pairs(tier string) []Case {
 			sub := squ.State{s[i]}
 			cs = append(cs, Case{s.Names(), sub.Names(), 0}, Case{sub.Names(), s.Names(), 1})
 		}
+		// and against the bare skeleton: plans that change two things at once.
+		cs = append(cs, Case{nil, s.Names(), 0}, Case{s.Names(), nil, 1})
 	}
 	return cs
 }
 
 func Run(r *report.Run) {
 	ctx := context.Background()
-	r.Rule = "current database A created on a real in-memory SQLite engine by our own DDL writer (two spellings: table-level constraints / inline column constraints), desired schema B given as HCL from our own writer; flow of `schema apply`: InspectRealm -> RealmDiff(DiffNormalized) -> ApplyChanges in a transaction -> re-inspect -> re-diff. quick: all ordered pairs of states with <=1 feature (x2 spellings) plus every 2-feature state against each of its 1-feature sub-states in both directions; thorough: all ordered pairs of states with <=2 features. Features: " + fmt.Sprint(len(squ.Features)) + " elementary features over a 3-table skeleton. non-trivial = pair with a non-empty plan; distinct = (A, B, spelling)"
+	r.Rule = "current database A created on a real in-memory SQLite engine by our own DDL writer (two spellings: table-level constraints / inline column constraints), desired schema B given as HCL from our own writer; flow of `schema apply`: InspectRealm -> RealmDiff(DiffNormalized) -> ApplyChanges in a transaction -> re-inspect -> re-diff. quick: all ordered pairs of states with <=1 feature (x2 spellings) plus every 2-feature state against each of its 1-feature sub-states in both directions and against the bare skeleton; thorough: all ordered pairs of states with <=2 features. Features: " + fmt.Sprint(len(squ.Features)) + " elementary features over a 3-table skeleton. non-trivial = pair with a non-empty plan; distinct = (A, B, spelling)"
 	r.Assumptions = []string{
 		"engine-invalid combinations (rejected by SQLite when created by our own DDL) are skipped and counted",
 		"independent oracle: the engine catalogue (pragma table_xinfo/index_list/index_xinfo/foreign_key_list + CHECK/generated texts) after A->B equals that of B created directly by our DDL; auto-index names and the origin of unique indexes (constraint vs CREATE INDEX) are normalised because atlas manages both as unique indexes",
